@@ -13,6 +13,7 @@ import AcVerif.Engine.Replace
 import AcVerif.Engine.Stream
 import AcVerif.Packed.Model
 import AcVerif.Pre.Builder
+import AcVerif.Cost
 /-!
 # Line-protocol driver: the model's answer to each request
 -/
@@ -272,6 +273,47 @@ def answerPre (r : Req) (c : Cfg) : String :=
       s!"{ch.name} {fmtCand (ch.findIn hay s e)}"
     | _, _ => "bad-request:pre"
 
+/-- `cost api=find`: the search result with the number of `next_state` calls and
+failure-link traversals (C19) -/
+def answerCost (r : Req) (c : Cfg) : String :=
+  match r.list? "pats", MatchKind.parse (r.getD "mk" "std"), (r.bytes? "hay").bind (mkInput r) with
+  | some P0, some k, some i =>
+    let fold := r.flag "fold"
+    let P := if fold then P0.map (·.map foldByte) else P0
+    let g : UInt8 → UInt8 := if fold then foldByte else id
+    let Q := patSet k P
+    let preC : Option PreChoice := if c.pf then (prefilterOf r).join else none
+    let hasPre := preC.isSome
+    let A0 : Aut (St UInt8) UInt8 := ideal k P (if c.isTop then c.sk else c.autStartKind) hasPre
+    let A := if fold then A0.comap foldByte else A0
+    let K := constsOf r
+    let isDfa := c.kind == "dfa" || c.kind == "tdfa" ||
+      (c.kind == "auto" && c.sk != StartKind.both && P.length ≤ K.autoDfaLimit)
+    let gate : Except MatchErr Unit := if c.isTop then enforceAnchored c.sk i.anch else .ok ()
+    match gate with
+    | .error e => s!"{e.name} t=0 f=0"
+    | .ok () =>
+      if i.isDone then "none t=0 f=0"
+      else
+        let earliest := k == .std || i.earliest
+        match A.start i.anch with
+        | none => if i.anch then "err-anchored t=0 f=0" else "err-unanchored t=0 f=0"
+        | some sid =>
+          let mat0 := if A.isMatch sid then some (getMatch A sid 0 i.s) else none
+          let fin := fun (res : Option Mat × Cost) =>
+            s!"{fmtOpt res.1} t={res.2.transitions} f={if isDfa then 0 else res.2.fails}"
+          if A.isMatch sid && earliest then fin (mat0, {})
+          else
+            let pre : Option (Prefilter UInt8) := if i.anch then none else preC.map (·.findIn)
+            match pre with
+            | some p =>
+              match p i.hay i.s i.e with
+              | .none => fin (none, {})
+              | .mtch m => fin (some m, {})
+              | .pos j => fin (findCost k Q A g i.hay i.s i.e i.valid.1 pre i.anch earliest sid j mat0 {})
+            | none => fin (findCost k Q A g i.hay i.s i.e i.valid.1 none i.anch earliest sid i.s mat0 {})
+  | _, _, _ => "bad-request:cost"
+
 /-- `meta`: what the searcher reports about itself (C20) -/
 def answerMeta (r : Req) (c : Cfg) : String :=
   match r.list? "pats", MatchKind.parse (r.getD "mk" "std") with
@@ -444,14 +486,26 @@ def answerCert (r : Req) : String :=
           let f := buildSim m.A B n anch
           let ok := certOk m.A B n anch first f allBytes
           (anch, ok, if ok then "ok" else certDiag m.A B n anch first f showSt)
-        let allOk := contract && res.all (·.2.1)
+        -- C19: failure-link traversals of every (state, byte) next_state call equal the model's chain length
+        let failsOk : Bool :=
+          if r.getD "failsmode" "" != "model" then true
+          else
+            let f := buildSim m.A B n false
+            let Q := patSet m.kind m.P
+            let g : UInt8 → UInt8 := if m.fold then foldByte else id
+            (List.range n).all fun b =>
+              match f[b]?, T.states[b]? with
+              | some (some a), some st =>
+                allBytes.all fun c => st.fails.getD c.toNat 0 == Ideal.hops m.kind Q false a (g c)
+              | _, _ => true
+        let allOk := contract && failsOk && res.all (·.2.1)
         let meta_ok := B.patternsLen == m.A.patternsLen &&
           (List.range B.patternsLen).all (fun p => B.patLen p == m.A.patLen p)
         if allOk && meta_ok then s!"cert-ok states={n} contract=1"
         else
           let diags := res.filterMap fun (anch, ok, d) =>
             if ok then none else some s!"anch={if anch then 1 else 0}:{d}"
-          s!"cert-fail contract={if contract then 1 else 0} meta={if meta_ok then 1 else 0} " ++ " | ".intercalate diags
+          s!"cert-fail contract={if contract then 1 else 0} meta={if meta_ok then 1 else 0} fails={if failsOk then 1 else 0} " ++ " | ".intercalate diags
 
 /-- `certpair`: certificate of one dump (prefix `b_`) against another (prefix `a_`),
 full match lists, both anchorings. -/
@@ -476,11 +530,23 @@ def answerCertPair (r : Req) : String :=
           let f := buildSim A B n anch
           let ok := certOk A B n anch first f allBytes
           (anch, ok, if ok then "ok" else certDiag A B n anch first f toString)
-      if TB.contractOk && res.all (·.2.1) then s!"cert-ok states={n}"
+      let failsOk : Bool := match r.getD "failsmode" "" with
+        | "zero" => TB.states.all fun st => st.fails.all (· == 0)
+        | "same" =>
+          let f := buildSim A B n false
+          (List.range n).all fun b =>
+            match f[b]?, TB.states[b]? with
+            | some (some a), some st =>
+              match TA.states[a]? with
+              | some sa => st.fails == sa.fails
+              | none => false
+            | _, _ => true
+        | _ => true
+      if TB.contractOk && failsOk && res.all (·.2.1) then s!"cert-ok states={n}"
       else
         let diags := res.filterMap fun (anch, ok, d) =>
           if ok then none else some s!"anch={if anch then 1 else 0}:{d}"
-        s!"cert-fail contract={if TB.contractOk then 1 else 0} " ++ " | ".intercalate diags
+        s!"cert-fail contract={if TB.contractOk then 1 else 0} fails={if failsOk then 1 else 0} " ++ " | ".intercalate diags
     | _, _ => "bad-request:dump"
 
 /-- all response lines for one request line -/
@@ -495,6 +561,7 @@ def respond (lineNo : Nat) (line : String) : List String :=
     | "packed" => ((r.getD "pcfg" "default").splitOn ";").map fun v => s!"{lineNo} {v} {answerPacked r v}"
     | "pre" => (cfgsOf r).map fun c => s!"{lineNo} {c.name} {answerPre r c}"
     | "meta" => (cfgsOf r).map fun c => s!"{lineNo} {c.name} {answerMeta r c}"
+    | "cost" => (cfgsOf r).map fun c => s!"{lineNo} {c.name} {answerCost r c}"
     | "selfcheck" => (cfgsOf r).map fun c => s!"{lineNo} {c.name} ok"
     | "gate" => (cfgsOf r).map fun c => s!"{lineNo} {c.name} {answerGate r c}"
     | _ => (cfgsOf r).map fun c => s!"{lineNo} {c.name} {answer r c}"
